@@ -1,0 +1,12 @@
+//go:build verif
+
+package freelist
+
+import "github.com/ipld/go-storethehash/store/types"
+
+// VerifPool returns a copy of the blocks waiting to be flushed.
+func (cp *FreeList) VerifPool() []types.Block {
+	cp.poolLk.RLock()
+	defer cp.poolLk.RUnlock()
+	return append([]types.Block(nil), cp.blockPool...)
+}
